@@ -87,6 +87,60 @@ pub fn c16_strings(prop: &str, max_len: usize) -> FamilyResult {
     FamilyResult { explorer: "E4".into(), family: fam, complete: !report::stopped(), note: String::new(), stats: total, wall_s: t0.elapsed().as_secs_f64() }
 }
 
+/// Long inputs, enumerated by structure: a head (a value's printed form, or nothing) + a separator + a tail in which ONE
+/// wide character (2, 3 or 4 UTF-8 bytes) stands at every byte offset 0..=`max_tail` of a run of filler characters, the
+/// run continuing to `max_tail` + 8 bytes.  Whatever a parser does with text beyond the notation (skip it, quote it in an
+/// error message, truncate it) must not panic and must not accept it.
+pub fn c16_long_tails(prop: &str, max_tail: usize) -> FamilyResult {
+    let t0 = Instant::now();
+    let fam = format!("E4 long inputs: {{action, square, piece, direction forms, empty}} + separator + filler run with one 2/3/4-byte character at every byte offset 0..={}", max_tail);
+    let heads = ["", "a1n", "h8w", "e7s", "p", "R", "e", "d4", "n", "a1", "h8e"];
+    let seps = ["", " ", "\t", ",", "  "];
+    let fillers = ['x', ' ', '1'];
+    let wides = ['é', '日', '😀', '٣'];
+    let mut jobs: Vec<String> = vec![];
+    for h in heads.iter() {
+        for sep in seps.iter() {
+            for f in fillers.iter() {
+                for w in wides.iter() {
+                    for k in 0..=max_tail {
+                        let mut s = String::with_capacity(max_tail + 24);
+                        s.push_str(h);
+                        s.push_str(sep);
+                        for _ in 0..k {
+                            s.push(*f);
+                        }
+                        s.push(*w);
+                        while s.len() < h.len() + sep.len() + max_tail + 8 {
+                            s.push(*f);
+                        }
+                        jobs.push(s);
+                    }
+                }
+            }
+        }
+    }
+    let fam2 = fam.clone();
+    let mut st = jobs
+        .par_iter()
+        .enumerate()
+        .fold(Stats::default, |mut st, (i, s)| {
+            if report::stopped() {
+                return st;
+            }
+            check_one::<Action>(prop, &fam2, i as u64, s, "Action", true, &mut st);
+            check_one::<Square>(prop, &fam2, i as u64, s, "Square", false, &mut st);
+            check_one::<Piece>(prop, &fam2, i as u64, s, "Piece", true, &mut st);
+            check_one::<Direction>(prop, &fam2, i as u64, s, "Direction", false, &mut st);
+            st.states += 1;
+            st
+        })
+        .reduce(Stats::default, Stats::merge);
+    st.roots = st.states;
+    st.sample(0, format!("{:?}", jobs.iter().step_by(jobs.len() / 3 + 1).map(|s| s.chars().take(24).collect::<String>()).collect::<Vec<_>>()));
+    FamilyResult { explorer: "E4".into(), family: fam, complete: !report::stopped(), note: String::new(), stats: st, wall_s: t0.elapsed().as_secs_f64() }
+}
+
 /// Round trips over all values and the square/index/bit conversions.
 pub fn c16_values(prop: &str) -> FamilyResult {
     let t0 = Instant::now();
@@ -230,6 +284,53 @@ pub fn c15_short_strings(prop: &str, max_len: usize) -> FamilyResult {
     total.roots = total.states;
     total.sample(0, format!("{:?}", (0..5).map(|i| nth_string(4000 + 7919 * i, 5.min(max_len), &SIGMA15)).collect::<Vec<_>>()));
     FamilyResult { explorer: "E4".into(), family: fam, complete: !report::stopped(), note: String::new(), stats: total, wall_s: t0.elapsed().as_secs_f64() }
+}
+
+/// Long inputs for the position parser, enumerated by structure: {nothing, a header, a header and a full diagram, one rank
+/// line} + separator + a filler run with ONE wide character at every byte offset 0..=`max_tail`.
+pub fn c15_long_tails(prop: &str, max_tail: usize) -> FamilyResult {
+    let t0 = Instant::now();
+    let fam = format!("E4 long inputs through GameState::from_str: {{empty, header, header + diagram, rank line}} + separator + filler run with one 2/3/4-byte character at every byte offset 0..={}", max_tail);
+    let diagram = "2g\n +-----------------+\n8| r r r r r r r r |\n7| h d c m e c d h |\n6|     x     x     |\n5|                 |\n4|                 |\n3|     x     x     |\n2| H D C E M C D H |\n1| R R R R R R R R |\n +-----------------+\n   a b c d e f g h\n";
+    let heads: Vec<String> = vec!["".into(), "12g".into(), "7s\n".into(), diagram.to_string(), "3| R   C |".into(), "44w |".into()];
+    let seps = ["", " ", "\n", "|"];
+    let fillers = ['x', ' ', '1', 'R', '|'];
+    let wides = ['é', '日', '😀', '٣'];
+    let mut jobs: Vec<String> = vec![];
+    for h in heads.iter() {
+        for sep in seps.iter() {
+            for f in fillers.iter() {
+                for w in wides.iter() {
+                    for k in 0..=max_tail {
+                        let mut s = String::with_capacity(h.len() + max_tail + 24);
+                        s.push_str(h);
+                        s.push_str(sep);
+                        for _ in 0..k {
+                            s.push(*f);
+                        }
+                        s.push(*w);
+                        while s.len() < h.len() + sep.len() + max_tail + 8 {
+                            s.push(*f);
+                        }
+                        jobs.push(s);
+                    }
+                }
+            }
+        }
+    }
+    let fam2 = fam.clone();
+    let mut st = jobs
+        .par_iter()
+        .enumerate()
+        .fold(Stats::default, |mut st, (i, s)| {
+            if !report::stopped() {
+                parse_state_no_panic(prop, &fam2, i as u64, s, &mut st);
+            }
+            st
+        })
+        .reduce(Stats::default, Stats::merge);
+    st.roots = st.states;
+    FamilyResult { explorer: "E4".into(), family: fam, complete: !report::stopped(), note: String::new(), stats: st, wall_s: t0.elapsed().as_secs_f64() }
 }
 
 /// Token grammar: header x rows x row width x cell filling x frame x trailer.
